@@ -60,9 +60,10 @@ pub proof fn lemma_ffilter_drop(w: Seq<Factor>, k: Keep, c: Carrier, s: Source, 
 }
 // ---- what a building needs (from the lookups in the contracts of compute_weighted_energy / add_cgn_factors)
 pub open spec fn any_e(cs: Seq<Energy>, p: spec_fn(Energy) -> bool) -> bool { exists|j: int| 0 <= j < cs.len() && p(#[trigger] cs[j]) }
-/// carriers that get a balance: those of the consumption and production components
+/// carriers that get a balance: those of the consumption, production and auxiliary-energy components (C06: auxiliary
+/// energy counts even when it is the only electricity component)
 pub open spec fn in_avail(cs: Seq<Energy>, c: Carrier) -> bool {
-    exists|j: int| 0 <= j < cs.len() && ((#[trigger] cs[j]) is Used || cs[j] is Prod) && e_carrier(cs[j]) == c
+    exists|j: int| 0 <= j < cs.len() && !((#[trigger] cs[j]) is Out) && e_carrier(cs[j]) == c
 }
 pub open spec fn has_cogen_pr(cs: Seq<Energy>) -> bool { exists|j: int| 0 <= j < cs.len() && e_is_cogen_pr(#[trigger] cs[j]) }
 pub open spec fn has_nepb_use(cs: Seq<Energy>) -> bool { exists|j: int| 0 <= j < cs.len() && e_is_nepb_use(#[trigger] cs[j]) }
